@@ -11,8 +11,8 @@ cd "$W"; git apply "$D/patch.diff" || exit 1
 demo_cmd=$(python3 -c "import json;print(json.load(open('$D/meta.json'))['demo_cmd'])")
 cmd=$(echo "$demo_cmd" | sed -E "s#^cd [^&]*&& *##; s#/tmp/seed-[a-z0-9]*/repo#$W#g")
 say "demo_cmd (re-run): $cmd"
-( cd "$W" && timeout 3000 bash -c "$cmd" ) >"$D/demo_with.log" 2>&1; a=$?
+( cd "$W" && rm -f target/.rustc_info.json; timeout 3000 bash -c "$cmd" </dev/null ) >"$D/demo_with.log" 2>&1; a=$?
 git apply -R "$D/patch.diff"
-( cd "$W" && timeout 3000 bash -c "$cmd" ) >"$D/demo_without.log" 2>&1; b=$?
+( cd "$W" && rm -f target/.rustc_info.json; timeout 3000 bash -c "$cmd" </dev/null ) >"$D/demo_without.log" 2>&1; b=$?
 say "demo with patch: rc=$a"; say "demo without patch: rc=$b"
 if [ $a -ne 0 ] && [ $b -eq 0 ]; then say "DEMO OK (fails with, passes without)"; else say "DEMO NOT CONFIRMED"; fi
